@@ -101,6 +101,7 @@ pub fn repr(m: &'static Model) -> BoxedStrategy<Repr> {
         1 => (any::<u16>(), pre.clone()).prop_map(|(split, pre)| Repr::Appended { split, pre }),
         1 => (any::<u16>(), pre).prop_map(|(split, pre)| Repr::Prepended { split, pre }),
         1 => flank(m, 70).prop_map(|junk| Repr::Refilled { junk }),
+        1 => (0..64u8).prop_map(|head| Repr::FromBitSlice { head }),
         1 => (any::<u16>(), flank(m, 70)).prop_map(|(split, junk)| Repr::TruncExtend { split, junk }),
     ]
     .boxed()
@@ -128,6 +129,7 @@ pub fn owned_repr(m: &'static Model) -> BoxedStrategy<Repr> {
         1 => (any::<u16>(), pre.clone()).prop_map(|(split, pre)| Repr::Appended { split, pre }),
         1 => (any::<u16>(), pre).prop_map(|(split, pre)| Repr::Prepended { split, pre }),
         1 => flank(m, 70).prop_map(|junk| Repr::Refilled { junk }),
+        1 => (0..64u8).prop_map(|head| Repr::FromBitSlice { head }),
         1 => (any::<u16>(), flank(m, 70)).prop_map(|(split, junk)| Repr::TruncExtend { split, junk }),
     ]
     .boxed()
